@@ -142,9 +142,13 @@ package dns
 //@   ensures ok:   ret2 == nil ==> ret1 == end && end <= len(msg)
 //@   ensures fail: ret2 != nil ==> ret1 == len(msg)
 
+// the "octet" fields (URI target, CAA value) hold presentation text: packOctetString and the printer read a
+// backslash as the start of an escape.  So what unpacking stores must read back, unit by unit, as the octets it
+// came from - one unit per octet (spec unitsfrom, verif_contracts_len.go)
 //@ func unpackStringOctet [C01 C02]
 //@   requires 0 <= off && off <= len(msg)
 //@   ensures ret2 == nil && ret1 == len(msg)
+//@   ensures units: unitsfrom(ret0, 0) == len(msg) - off [C01]
 
 // every rejection of a type bitmap is one RFC 4034 4.1.2 prescribes: truncated block header, windows not
 // increasing, empty block, block longer than 32 octets, block overrunning the RDATA - and nothing else
